@@ -2,7 +2,7 @@
 import rdflib
 from rdflib import BNode, Literal, URIRef
 
-from .. import enc, framework as F, shapes as S, evalcheck as EC, sparqlgen as SG
+from .. import enc, framework as F, shapes as S, evalcheck as EC, sparqlgen as SG, messagecheck as MC
 from ..enc import EX, SH
 
 PROP = "C05"
@@ -72,8 +72,10 @@ def main(tier, seed, replay=None):
 
     return EC.standard_main(
         PROP, ["Props/C05.v"], tier, seed, modelled,
-        rule="case = 1-3 node/property shapes with sh:sparql constraints (8 SELECT templates with $this/$PATH/?value/?path/?failure/extra variables, message templates with {$var}/{?var}, sh:prefixes, deactivated) and SPARQL-based constraint components (ASK and SELECT validators with a parameter), optionally next to a core component; the solutions of every query for every candidate focus/value node are obtained by running the declared query directly through rdflib with the SHACL-SPARQL pre-bindings and handed to the model as data; %d further cases carry a query SHACL-SPARQL forbids (MINUS, VALUES, SERVICE, AS ?this, nested SELECT) and must end in a validation failure" % len(screened),
+        rule="case = 1-3 node/property shapes with sh:sparql constraints (8 SELECT templates with $this/$PATH/?value/?path/?failure/extra variables, message templates with {$var}/{?var}, sh:prefixes, deactivated) and SPARQL-based constraint components (ASK and SELECT validators with a parameter), optionally next to a core component; the solutions of every query for every candidate focus/value node are obtained by running the declared query directly through rdflib with the SHACL-SPARQL pre-bindings and handed to the model as data; %d further cases carry a query SHACL-SPARQL forbids (MINUS, VALUES, SERVICE, AS ?this, nested SELECT) and must end in a validation failure; message templates: both substitution sites on random templates (brace and sigil soup, unterminated and empty placeholders) and bindings (values with braces, backslashes, placeholder-like text) = the model's one-pass verbatim substitution" % len(screened),
         what="results differ from 'one result per distinct solution, each with the messages of its own bindings' (Props.C05)",
         metamorphic=meta,
-        extra_assumptions=["SPARQL evaluation is rdflib's (oracle); the regex screens for forbidden syntax are not modelled (differential only)"],
+        extra_checks=lambda: MC.run(F.rng_for(seed, PROP + "/messages"), 600 if tier == "quick" else 8000),
+        extra_assumptions=["the message-template model (Sparql/Message.v) is hand-written; it is tied to SPARQLQueryHelper.bind_messages and ConstraintComponent._format_sparql_based_result_message by running both on random templates and bindings (Python's re module is the implementation's engine)",
+                           "SPARQL evaluation is rdflib's (oracle); the regex screens for forbidden syntax are not modelled (differential only)"],
     )
